@@ -11,7 +11,7 @@ from ..core import Violation, Outcome, HarnessError
 
 ID = 'C01'
 TITLE = 'merge-control tags never change the evaluated content of a single document'
-RULE = ('one mapping document (depth <=5, keys int/float/str incl. underscore, all five scalar types incl. awkward strings, block/flow, '
+RULE = ('one mapping document (depth <=5, keys int/float/str incl. underscore, all five scalar types incl. awkward strings, yaml timestamps, block/flow, '
         'quoting styles incl. literal blocks, yaml anchors/aliases) with two independent random placements of !force/!weak/!del/!merge/!new/!unsafe/!metadata ({{..}} and :hex forms) '
         'on any node incl. the root and value-less nodes; non-trivial = a tag on a container that has a container grandchild, or an '
         'underscore key, or a value-less tagged node, or an alias, or a final block scalar ending with line breaks; distinct = hash of the case')
@@ -21,7 +21,8 @@ ASSUMPTIONS = ['PyYAML SafeLoader on the tag-erased text defines the plain conte
                'key names that are attributes of the node classes are not generated (rejected by design)']
 
 _str_ok = lambda s: '{{' not in s
-LEAVES = S.scalar_node(S.SCALARS.filter(lambda v: not isinstance(v, str) or _str_ok(v)))
+LEAVES = st.one_of(*[S.scalar_node(S.SCALARS.filter(lambda v: not isinstance(v, str) or _str_ok(v)))] * 39,
+                   st.sampled_from(tdoc.TIMESTAMPS).map(tdoc.ts))      # yaml timestamps: PyYAML resolves them to date / datetime
 
 
 @st.composite
@@ -88,6 +89,8 @@ def classify(doc):
         if n['t'] == 'alias':
             labels.add('alias')
             nontrivial = True
+        if n['t'] == 'raw' and n.get('res'):
+            labels.add('timestamp-scalar')
         if n['t'] == 'sc' and n.get('q') == 'block' and isinstance(n['v'], str) and n['v'].endswith('\n'):
             labels.add('block-scalar-ending-with-line-breaks')
             nontrivial = True
